@@ -71,7 +71,12 @@ def run(tier, seed, replay=None):
         dead = [(i, pm) for i, pm in enumerate(meta["programs"]) if pm["deadlocks"]]
         for i, pm in dead[:3]:
             res.violation({"property": PID, "kind": "deadlock: goroutines wait for locks none of them can get",
-                           "init": pm["program"]["init"], "threads": pm["program"]["threads"], "schedule": pm["dead_sched"]})
+                           "init": pm["program"]["init"], "threads": pm["program"]["threads"], "schedule": pm["dead_sched"],
+                           "note": "LazyExt / PeekExt install an external lookup whose Get / Type call back into the scope they serve (Define resp. a symbol listing)"
+                                   if pm["program"].get("reentrant") else ""})
+        for i, pm in [(i, pm) for i, pm in enumerate(meta["programs"]) if pm.get("panics")][:2]:
+            res.violation({"property": PID, "kind": "an environment operation panicked while an external lookup called back into its scope",
+                           "init": pm["program"]["init"], "threads": pm["program"]["threads"]})
         # static table: concrete offenders for the replay file
         bad_acc = [a for a in meta["accesses"] if (a["write"] and a["lock"] != 2) or (not a["write"] and a["lock"] not in (1, 2))]
         # race detector stress
